@@ -23,6 +23,22 @@ claimed = {
     text="Kernel PerpendicDistFromLineSqr64 decided on the real code for all coordinates (sign, exact zero set, translation invariance); SimplifyPath64's bookkeeping decided on the real code with the kernel abstracted to an arbitrary non-negative function (hence for every kernel) for n <= 5 (thorough 7) with symbolic epsilon: sub-sequence, end points, no retained vertex within epsilon of its retained neighbours; epsilon 0: exact area identity and translation of the retained set.",
     note="Bookkeeping jobs use an uninterpreted kernel (sound for unsat; a sat model there must still replay natively). SimplifyPathD/Paths variants and power-of-two scaling are not decided here.",
     ref="3/C16"),
+ "C02": dict(
+    text="Every feasible path of the real sweep on rectilinear family R(1,1) (thorough: all 16 operations x both settings of reverse-solution and preserve-collinear, and R(2,0)): each output path has >= 3 vertices, no repeated consecutive vertex (solver, all coordinate values), winding 0/1 (0/-1 with reverse-solution) on every grid cell that can hold a probe 2 units from the solution's own edges, and re-uniting the solution leaves the region unchanged.",
+    note="Engine options are set in-package by the harness (no source hook). Bounds: rectilinear inputs; float model as in C01.",
+    ref="3/C02"),
+ "C12": dict(
+    text="Bounded call histories (<= 4 calls: other Execute first, tree execution first, split AddPaths, other add order, pre-filled solution arguments, repeated execution, tree after paths) on one engine object with fully symbolic R(1,1) geometry, compared vertex-for-vertex (or region-for-region where the add order differs) with a fresh engine on every feasible path; floating-point engine with a pre-filled solution; every store into a caller-owned backing array is flagged by the executor's heap monitor on all of these paths.",
+    note="History length <= 4, rectilinear geometry. ClipperOffset histories are covered under C05's jobs when present.",
+    ref="3/C12"),
+ "C17": dict(
+    text="The same boolean operation executed on two spellings of the same fully symbolic R(1,1) input inside one symbolic run (start vertex rotated, vertex repeated, reversed paths with the matching fill rule, subject/clip exchanged, lattice symmetries; thorough: path permutation and R(2,0)), regions compared on every grid cell; determinism by construction of the executor (any nondeterminism source aborts the path and is reported) plus the twice-run harness.",
+    note="Bounds: rectilinear inputs. The sort is the toolchain's real pdqsort interpreted from SSA, so tie order is the real one.",
+    ref="3/C17"),
+ "C19": dict(
+    text="All four clip types (plus Difference(C,S) and UnionPaths64) run on the same fully symbolic R(1,1) input in one symbolic run; the set identities (Xor = Union minus Intersection, Difference = subject minus Intersection, pairwise disjointness, parts make up Union, UnionPaths64 = Union with empty clip) are decided per grid cell on every feasible path.",
+    note="Pointwise identities imply the area identities up to the band; the area formulas themselves and inputs with thousands of vertices are outside the bound.",
+    ref="3/C19"),
 }
 
 not_applicable = {
